@@ -727,7 +727,9 @@ func main() {
 			// the frame of each call hangs below the CLONE taken when the literal was evaluated (since 4a41b28 through
 			// newCallFrame, which only changes the run id / cancellation channel of the new frame)
 			f.set("closureClonesFrame", contains(fd, "fr := f.clone()") &&
-				(contains(fd, "fr2 := newFrame(fr, len(n.types), fr.runid())") || contains(fd, "fr2 := newCallFrame(fr, len(n.types))")))
+				(contains(fd, "fr2 := newFrame(fr, len(n.types), fr.runid())") || contains(fd, "fr2 := newCallFrame(fr, len(n.types))") ||
+					// since dc95f3e: newCallFrame(interp, anc, length, epoch) builds the frame itself, `anc: anc`, the epoch is the clone's
+					contains(fd, "fr2 := newCallFrame(n.interp, fr, len(n.types), fr.getEpoch())")))
 		} else {
 			f.miss("func getFunc")
 		}
